@@ -89,7 +89,14 @@ fn main() {
             v.name
         ));
         if !v.real_common {
-            variants_rs.push_str("        pub mod common { pub use crate::shim::*; }\n");
+            // functions of the real common.rs that the shim does not model and that return nothing
+            // (e.g. a new "seal this block" helper) become no-ops, so that a tree that grew such a
+            // helper still builds here; anything that returns a value is left undefined (the
+            // engine then does not build and reports that)
+            let extra = extra_stubs(&core.join("common.rs"));
+            let dst = vdir.join("common_extra.rs");
+            write_if_changed(&dst, &extra);
+            variants_rs.push_str(&format!("        pub mod common {{ pub use crate::shim::*; use libc::*; include!({:?}); }}\n", dst.to_string_lossy()));
         }
         for f in v.files {
             let p = core.join(format!("{f}.rs"));
@@ -106,6 +113,59 @@ fn main() {
         variants_rs.push_str("    }\n}\n");
     }
     write_if_changed(&out_dir.join("variants.rs"), &variants_rs);
+}
+
+const SHIM_FNS: &[&str] = &["allocate_jit_memory", "read_bytes", "patch_function", "inject_asm_code"];
+
+fn extra_stubs(common: &Path) -> String {
+    let Ok(src) = fs::read_to_string(common) else { return String::new() };
+    let mut out = String::from("// [vsim] generated no-op stand-ins for unit-returning helpers of common.rs\n");
+    let mut seen: Vec<String> = vec![];
+    let mut rest = src.as_str();
+    while let Some(i) = rest.find("pub(crate) ") {
+        rest = &rest[i + "pub(crate) ".len()..];
+        let (is_unsafe, after) = if let Some(a) = rest.strip_prefix("unsafe fn ") { (true, a) } else if let Some(a) = rest.strip_prefix("fn ") { (false, a) } else { continue };
+        let Some(paren) = after.find('(') else { continue };
+        let name = after[..paren].trim().to_string();
+        if name.contains('<') || SHIM_FNS.contains(&name.as_str()) || seen.contains(&name) {
+            continue;
+        }
+        // parameter list up to the matching parenthesis
+        let mut depth = 0i32;
+        let mut end = None;
+        for (k, ch) in after[paren..].char_indices() {
+            match ch {
+                '(' => depth += 1,
+                ')' => {
+                    depth -= 1;
+                    if depth == 0 {
+                        end = Some(paren + k);
+                        break;
+                    }
+                }
+                _ => {}
+            }
+        }
+        let Some(end) = end else { continue };
+        let params = &after[paren + 1..end];
+        let tail = after[end + 1..].trim_start();
+        if !tail.starts_with('{') {
+            continue; // returns something (or has a where clause): not modelled
+        }
+        if params.contains("self") {
+            continue;
+        }
+        let plist: Vec<String> = params
+            .split(',')
+            .map(|p| p.trim())
+            .filter(|p| !p.is_empty())
+            .enumerate()
+            .filter_map(|(k, p)| p.split_once(':').map(|(_, ty)| format!("_p{k}: {}", ty.trim())))
+            .collect();
+        out.push_str(&format!("pub(crate) {}fn {name}({}) {{}}\n", if is_unsafe { "unsafe " } else { "" }, plist.join(", ")));
+        seen.push(name);
+    }
+    out
 }
 
 fn write_if_changed(p: &Path, s: &str) {
